@@ -15,6 +15,7 @@ import (
 	"math/rand"
 	"os"
 	"runtime"
+	"sync"
 	"time"
 
 	"github.com/couchbase/nitro"
@@ -48,6 +49,8 @@ type mvRun struct {
 	nodes   map[int]*skiplist.Node // key -> node of the live item (handle from Put2/GetNode)
 	nscan   int
 	failed  string
+	stored  int // snapshot number of the last successful backup (0 = none)
+	storing int // snapshot whose extra reference belongs to a StoreToDisk in progress
 }
 
 func num(x interface{}) int {
@@ -125,7 +128,8 @@ func (r *mvRun) exec(op []interface{}) bool {
 	case "Delete2":
 		w, k := num(op[1]), num(op[2])
 		n, ok := d.W[w-1].Delete2(d.Item(k, 0))
-		same := ok && n == r.nodes[k]
+		have, known := r.nodes[k]
+		same := ok && (!known || n == have)
 		if ok {
 			delete(r.nodes, k)
 		}
@@ -174,7 +178,7 @@ func (r *mvRun) exec(op []interface{}) bool {
 	case "CloseSnap":
 		sn := num(op[1])
 		s := r.snaps[sn]
-		if s == nil || r.handles[sn] == 0 {
+		if s == nil || r.handles[sn] == 0 || (r.storing == sn && r.handles[sn] <= 1) {
 			return true
 		}
 		s.Close()
@@ -316,11 +320,127 @@ func (r *mvRun) exec(op []interface{}) bool {
 			r.failed = "HANG"
 			return false
 		}
+	case "Store":
+		// ["Store", sn, conc, [busy ops...]]: StoreToDisk of an open snapshot; the busy ops run inside the item
+		// callback of the first scanned item, i.e. while the backup is scanning (other shards keep scanning)
+		sn, conc := num(op[1]), num(op[2])
+		s := r.snaps[sn]
+		if s == nil || r.handles[sn] == 0 {
+			return true
+		}
+		var busy [][]interface{}
+		if len(op) > 3 {
+			if l, ok := op[3].([]interface{}); ok {
+				for _, b := range l {
+					busy = append(busy, b.([]interface{}))
+				}
+			}
+		}
+		if !r.drainPicked() {
+			return false
+		}
+		if !s.Open() {
+			return true
+		}
+		r.handles[sn]++
+		r.emit(tr.Ev{"e": "Open", "sn": sn, "ok": true}, true)
+		r.emit(tr.Ev{"e": "StoreBegin", "sn": sn, "delta": d.Cfg.Delta}, false)
+		os.RemoveAll(*mvBackupDir)
+		var once sync.Once
+		earlyClosed := false
+		r.storing = sn
+		closeEv := func() {
+			r.storing = 0
+			r.handles[sn]--
+			picked, _ := d.Picked()
+			r.emit(tr.Ev{"e": "CloseSnap", "sn": sn, "picked": picked, "by": "StoreToDisk"}, true)
+		}
+		cb := func(*nitro.ItemEntry) {
+			once.Do(func() {
+				if d.Cfg.Delta {
+					earlyClosed = true
+					closeEv()
+				}
+				for _, b := range busy {
+					if !r.exec(b) {
+						break
+					}
+				}
+				r.drainPicked()
+			})
+		}
+		err := d.StoreToDisk(*mvBackupDir, s, conc, cb)
+		if !earlyClosed {
+			closeEv()
+		}
+		r.drainPicked()
+		r.stored = sn
+		r.emit(tr.Ev{"e": "Store", "sn": sn, "ok": err == nil, "conc": conc}, true)
+	case "Restore":
+		// LoadFromDisk of the last backup into a fresh instance with the same configuration; the driver then
+		// continues on the restored instance
+		if r.stored == 0 {
+			return true
+		}
+		conc := num(op[1])
+		nd := nh.Open(d.Cfg)
+		snap, err := nd.LoadFromDisk(*mvBackupDir, conc, nil)
+		e := tr.Ev{"e": "Load", "sn": r.stored, "ok": err == nil, "conc": conc}
+		if err != nil {
+			e["err"] = err.Error()
+			e["ritems"], e["rcount"] = [][2]int{}, 0
+			r.t.Emit(e)
+			nd.Shutdown()
+			break
+		}
+		nd.RefreshStore()
+		items, _ := nd.Scan(snap, 0)
+		e["ritems"], e["rcount"] = items, snap.Count()
+		// leave the old instance in an orderly way
+		for _, x := range r.iters {
+			if x.open {
+				x.it.Close()
+				x.open = false
+			}
+		}
+		for sn2, n := range r.handles {
+			for ; n > 0; n-- {
+				r.snaps[sn2].Close()
+			}
+		}
+		d.DrainGate()
+		d.Shutdown()
+		r.d = nd
+		r.snaps = map[int]*nitro.Snapshot{1: snap}
+		r.handles = map[int]int{1: 1}
+		r.iters = map[int]*mvIter{}
+		r.nodes = map[int]*skiplist.Node{}
+		r.stored = 0
+		r.emit(e, true)
 	default:
 		die("mvcc: unknown op %q", name)
 	}
 	return true
 }
+
+// drainPicked releases every garbage list held at the gate (logging each as a GCUnlink step).
+func (r *mvRun) drainPicked() bool {
+	for {
+		picked, err := r.d.Picked()
+		if err != nil {
+			r.failed = err.Error()
+			return false
+		}
+		if len(picked) == 0 {
+			return true
+		}
+		if !r.exec([]interface{}{"GCUnlink", picked[0]}) {
+			return false
+		}
+	}
+}
+
+var mvBackupDir = new(string)
 
 var mvHangDump = new(string)
 
@@ -351,10 +471,10 @@ func mvRunScenario(t *tr.W, sc *mvScript) string {
 			r.snaps[sn].Close()
 		}
 	}
-	if err := d.DrainGate(); err != nil && r.failed == "" {
+	if err := r.d.DrainGate(); err != nil && r.failed == "" {
 		r.failed = err.Error()
 	}
-	d.Shutdown()
+	r.d.Shutdown()
 	return r.failed
 }
 
@@ -397,6 +517,10 @@ func mvRandom(t *tr.W, g *mvGen, length int) string {
 		wt = [9]int{6, 0, 60, 0, 8, 5, 0, 1, 20}
 		sc.NoScan = true
 		delBias = 1
+	case "backup":
+		wt = [9]int{10, 6, 40, 2, 14, 10, 2, 2, 2}
+		sc.Cfg.Delta = rnd.Intn(2) == 0
+		sc.Cfg.Hold = rnd.Intn(2) == 0
 	}
 	if g.prof == "mixed" && rnd.Intn(2) == 0 {
 		sc.ScanRate = [][]int{{0}, {1}, {0, 1, 2, 5}, {3}}[rnd.Intn(4)]
@@ -424,7 +548,7 @@ func mvRandom(t *tr.W, g *mvGen, length int) string {
 			}
 		}
 		sortInts(open)
-		picked, _ := d.Picked()
+		picked, _ := r.d.Picked()
 		w := 1 + rnd.Intn(sc.Cfg.Writers)
 		k := 1 + rnd.Intn(nk)
 		var op []interface{}
@@ -435,6 +559,9 @@ func mvRandom(t *tr.W, g *mvGen, length int) string {
 		}
 		if g.prof == "visitbig" && step < length/2 && rnd.Intn(4) > 0 {
 			cat = 2 // load phase
+		}
+		if g.prof == "backup" && step > 10 && rnd.Intn(12) == 0 {
+			cat = 9
 		}
 		put := func() []interface{} { return F("Put", w, k, 1+rnd.Intn(g.nvals)) }
 		switch cat {
@@ -506,6 +633,30 @@ func mvRandom(t *tr.W, g *mvGen, length int) string {
 			}
 		case 7:
 			op = F("GC")
+		case 9: // backup of an open snapshot (latest or older), possibly with mutation + GC while it scans; then restore
+			if len(open) == 0 {
+				op = F("NewSnapshot")
+				break
+			}
+			if r.stored != 0 && rnd.Intn(2) == 0 {
+				op = F("Restore", []int{1, 2, 8}[rnd.Intn(3)])
+				break
+			}
+			var busy []interface{}
+			for j := rnd.Intn(6); j > 0; j-- {
+				kk := 1 + rnd.Intn(nk)
+				switch rnd.Intn(5) {
+				case 0, 1:
+					busy = append(busy, []interface{}{"Delete", w, kk})
+				case 2:
+					busy = append(busy, []interface{}{"Put", w, kk, 1 + rnd.Intn(g.nvals)})
+				case 3:
+					busy = append(busy, []interface{}{"NewSnapshot"})
+				default:
+					busy = append(busy, []interface{}{"CloseSnap", open[rnd.Intn(len(open))]})
+				}
+			}
+			op = F("Store", open[rnd.Intn(len(open))], []int{1, 2, 8}[rnd.Intn(3)], busy)
 		default:
 			if len(open) > 0 {
 				shards := []int{1, 2, 3, 4, 8, 16, 64, 2 * nk}[rnd.Intn(8)]
@@ -535,10 +686,10 @@ func mvRandom(t *tr.W, g *mvGen, length int) string {
 			r.snaps[sn].Close()
 		}
 	}
-	if err := d.DrainGate(); err != nil && r.failed == "" {
+	if err := r.d.DrainGate(); err != nil && r.failed == "" {
 		r.failed = err.Error()
 	}
-	d.Shutdown()
+	r.d.Shutdown()
 	return r.failed
 }
 
@@ -560,8 +711,10 @@ func mvccMain(args []string) int {
 	nkeys := fs.Int("keys", 8, "")
 	prof := fs.String("profile", "mixed", "mixed | iter")
 	hang := fs.String("hangdump", "hang.txt", "")
+	bdir := fs.String("backupdir", "mvcc-backup", "")
 	fs.Parse(args)
 	*mvHangDump = *hang
+	*mvBackupDir = *bdir
 	t, err := tr.Create(*out)
 	if err != nil {
 		die("%v", err)
